@@ -61,6 +61,10 @@ void harness(void) {
 	vf_ini_gj = ghost_j;
 #endif
 	int r = ini_val_set(ini, sect_name, sect_name_size, val_name, val_name_size, val, val_size);
+#ifdef VF_PLAIN_POST /* plain mode (no contract instrumentation): the postcondition as assertion */
+	VF_ASSERT(vf_ini_post_val_set(ini, sect_name, sect_name_size, val_name, val_name_size,
+	    val, val_size, r), "ini_val_set: store well formed, lookup returns the new value");
+#endif
 #ifdef VF_REPLAY
 	for (vf_ini_gj = 0; vf_ini_gj <= VF_INI_FLD; vf_ini_gj ++)
 		VF_NATIVE_POST(vf_ini_post_val_set(ini, sect_name, sect_name_size, val_name,
